@@ -18,10 +18,14 @@ use std::cell::RefCell;
 pub const REG_FIFO: u8 = 0x00;
 pub const REG_OP_MODE: u8 = 0x01;
 pub const REG_IRQ_FLAGS: u8 = 0x12;
+pub const REG_FIFO_ADDR_PTR: u8 = 0x0D;
 
 #[derive(Clone)]
 pub struct Chip127 {
     pub regs: [u8; 128],
+    /// 256-byte data buffer behind the FIFO port; FIFO accesses go to RegFifoAddrPtr (0x0D),
+    /// which auto-increments (datasheet "LoRa FIFO data buffer").
+    pub ram: [u8; 256],
     pub fifo_written: Vec<u8>,
     pub irq_clears: Vec<u8>,
     /// (address, value) of every register write in wire order (diagnostics only).
@@ -33,7 +37,12 @@ pub struct Chip127 {
 
 impl Chip127 {
     pub fn new(regs: [u8; 128]) -> Self {
-        Chip127 { regs, fifo_written: Vec::new(), irq_clears: Vec::new(), writes: Vec::new(), transactions: 0, protocol_error: None }
+        let mut ram = [0u8; 256];
+        // deterministic, prior-dependent fill (both devices of a comparison get the same)
+        for (i, b) in ram.iter_mut().enumerate() {
+            *b = regs[(i * 7 + 3) & 0x7F] ^ (i as u8).wrapping_mul(0x9D);
+        }
+        Chip127 { regs, ram, fifo_written: Vec::new(), irq_clears: Vec::new(), writes: Vec::new(), transactions: 0, protocol_error: None }
     }
 
     fn write_reg(&mut self, addr: u8, mut v: u8) {
@@ -41,6 +50,9 @@ impl Chip127 {
         match addr {
             REG_FIFO => {
                 self.fifo_written.push(v);
+                let p = self.regs[REG_FIFO_ADDR_PTR as usize];
+                self.ram[p as usize] = v;
+                self.regs[REG_FIFO_ADDR_PTR as usize] = p.wrapping_add(1);
                 return;
             }
             REG_IRQ_FLAGS => {
@@ -98,7 +110,13 @@ impl Chip127 {
                             for b in buf.iter_mut() {
                                 let addr = if a == REG_FIFO { a } else { a.wrapping_add(offset) & 0x7F };
                                 offset = offset.wrapping_add(1);
-                                *b = if addr == REG_FIFO { 0 } else { self.regs[addr as usize] };
+                                *b = if addr == REG_FIFO {
+                                    let p = self.regs[REG_FIFO_ADDR_PTR as usize];
+                                    self.regs[REG_FIFO_ADDR_PTR as usize] = p.wrapping_add(1);
+                                    self.ram[p as usize]
+                                } else {
+                                    self.regs[addr as usize]
+                                };
                             }
                         }
                     }
